@@ -34,6 +34,13 @@ def _lattice(seed):
     return d, {'lattice': d.lattice_opts}
 
 
+@family('hexlattice')
+def _hexlattice(seed):
+    from . import decks
+    d = decks.hex_deck(seed)
+    return d, {'lattice': d.lattice_opts}
+
+
 def _norm_label(f):
     lab = f['label']
     if lab in ('structure', 'conversion-raised', 'unreadable-file'):
@@ -48,7 +55,10 @@ def _one(fam, seed, props, kw):
     opts = dict(opts)
     opts.update(kw)
     retag = opts.pop('retag', None)
+    remap = opts.pop('remap', None)           # e.g. {'C06': 'C07'}: the lattice checks stand for the hexagonal property
     want = tuple(props) + ('C08',)
+    if remap:
+        want = tuple(remap) + ('C08',)
     if retag:
         want = tuple(retag) + ('C08',)
     fails, stats, _ = checks.check_deck(deck, seed, want=want, **opts)
@@ -59,6 +69,8 @@ def _one(fam, seed, props, kw):
         f = dict(f)
         if retag and f['property'] in retag:
             f['property'] = props[0]
+        if remap and f['property'] in remap:
+            f['property'] = remap[f['property']]
         f['label'] = _norm_label(f)
         f['family'], f['seed'] = fam, seed
         out.append(f)
